@@ -1,6 +1,7 @@
 """C05 - GCV selection is optimal on the grid; robust mode never degenerates."""
 from __future__ import annotations
 
+import sys
 import math
 
 import numpy as np
@@ -374,3 +375,9 @@ def run(ctx):
         sub_accessor(case)
 
     ctx.given("accessor", acc_case(), ctx.n(300, 3000), fn=f_acc)
+
+
+from harness import history as _history  # noqa: E402
+
+_history.install(sys.modules[__name__], {"whitswcv": _history.q_whitswcv}, {"whitswcv": _history.WHITSWCV_ARGS}, n=(100, 1200), dtypes=("int16", "float64"),
+                 attr_values=(-3000, 0, -9999), cells=_history.NDVI_CELLS)
